@@ -287,15 +287,19 @@ impl Prop for C14 {
             Family::Unreal2 => vec![Behaviour::Valid, Behaviour::InfoThenSilent, Behaviour::RulesMalformed, Behaviour::Silence],
             _ => vec![Behaviour::Valid, Behaviour::Silence],
         };
-        let ip = IP4;
+        // both address families (with the full product of settings on IPv4 and the default settings on IPv6)
+        for ip in [IP4, super::c09::IP6] {
         for port in [None, Some(PORT)] {
             for ts in [None, super::c01::timeouts(1)] {
                 for extra in &extras {
+                    if ip != IP4 && (extra.is_some() || ts.is_some()) {
+                        continue;
+                    }
                     for b in &behaviours {
                         let run = |f: &dyn Fn() -> GDResult<Value>| -> Exec<Value> {
                             run_query(server_with(game, *b).unwrap(), Box::new(Partial { b: *b, cur: 0 }), Chooser::new(&[]), f)
                         };
-                        let cfg = format!("port={port:?} timeouts={} extra={} server={b:?}", if ts.is_some() { "Some(retries=1)" } else { "None" }, match extra { None => "None".to_string(), Some(e) => format!("{{players:{:?},rules:{:?},check:{:?},host:{:?}}}", e.gather_players, e.gather_rules, e.check_app_id, e.hostname) });
+                        let cfg = format!("ip={ip} port={port:?} timeouts={} extra={} server={b:?}", if ts.is_some() { "Some(retries=1)" } else { "None" }, match extra { None => "None".to_string(), Some(e) => format!("{{players:{:?},rules:{:?},check:{:?},host:{:?}}}", e.gather_players, e.gather_rules, e.check_app_id, e.hostname) });
                         // path A
                         let mut conv: Option<Value> = None;
                         let xa = {
@@ -354,6 +358,7 @@ impl Prop for C14 {
                     }
                 }
             }
+        }
         }
         ctx.sample(json!({"case": label, "family": family, "extras": extras.len(), "behaviours": behaviours.len(), "module": if module_path_exists(id) { module_of(id) } else { "-" }}));
     }
@@ -422,6 +427,18 @@ fn settings_conversions(ctx: &mut Ctx) {
                     }
                 }
             }
+        }
+    }
+    // the `Default` trait value (what `unwrap_or_default()` / `..Default::default()` give) is the documented inherent default
+    {
+        n += 1;
+        let (vt, vi) = (<ValveSettings as Default>::default(), ValveSettings::default());
+        if vt != vi {
+            bad(ctx, "valve-default-trait", "Default::default()".into(), format!("{vt:?}"), format!("{vi:?}"));
+        }
+        let (ut, ui) = (<U2Settings as Default>::default(), U2Settings::default());
+        if ut != ui {
+            bad(ctx, "unreal2-default-trait", "Default::default()".into(), format!("{ut:?}"), format!("{ui:?}"));
         }
     }
     // and back: a protocol's settings survive the trip through the generic form
